@@ -1,5 +1,5 @@
 From Coq Require Import ZifyBool.
-From NPS Require Import ListAux PySlice NumpySem SelRows BuildIdx XorProof.
+From NPS Require Import ListAux PySlice NumpySem SelRows BuildIdx XorProof Shape.
 Open Scope Z_scope.
 
 (* C19: the int32 configuration.  ViewBase._index_rows (raggedshape.py L160-164) reads each (start, length)
@@ -38,3 +38,55 @@ Proof.
   - eapply Forall_impl; [|apply (XorProof.cumsum_from_bounds 0 ls Hnn)]. cbn. unfold in32. intros; lia.
 Qed.
 Print Assumptions index_rows_width_independent.
+
+(* ---- the geometry arithmetic under a fixed-width index type: `wr` is applied after every addition on an index array ---- *)
+Definition wrap32 (x : Z) : Z := (x + 2 ^ 31) mod 2 ^ 32 - 2 ^ 31.          (* two's complement int32 *)
+Fixpoint cumsum_from_w (wr : Z -> Z) (acc : Z) (l : list Z) : list Z :=
+  match l with [] => [] | x :: xs => wr (acc + x) :: cumsum_from_w wr (wr (acc + x)) xs end.
+(* RaggedShape.__init__ with dtype int32: lengths cast, cumsum in int32, pad, interleave *)
+Definition shape_codes_w (wr : Z -> Z) (ls : list Z) : list Z :=
+  let ls' := map wr ls in
+  let starts := removelast (pad1 (removelast (cumsum_from_w wr 0 ls'))) in
+  match ls' with [] => [] | _ => interleave starts ls' end.
+(* ends = starts + lengths, size = starts[-1] + lengths[-1], ravel_multi_index = starts[row] + col: one addition each *)
+Definition add_w (wr : Z -> Z) (a b : Z) : Z := wr (a + b).
+
+Lemma wrap32_id x : in32 x -> wrap32 x = x.
+Proof. unfold in32, wrap32. intros H. rewrite Z.mod_small by lia. lia. Qed.
+
+Lemma cumsum_w_id : forall l acc, all_nonneg l -> in32 acc -> 0 <= acc -> acc + zsum l < 2 ^ 31 ->
+  cumsum_from_w wrap32 acc l = cumsum_from acc l.
+Proof.
+  induction l as [|x l IH]; intros acc Hnn Ha Hp Hs; [reflexivity|]. inversion Hnn as [|? ? Hx Hl]; subst.
+  pose proof (zsum_nonneg l Hl) as Hz. cbn [zsum] in Hs. cbn [cumsum_from_w cumsum_from].
+  assert (E : wrap32 (acc + x) = acc + x) by (apply wrap32_id; unfold in32 in *; lia).
+  rewrite E. f_equal. apply IH; [assumption|unfold in32 in *; lia|lia|lia].
+Qed.
+
+Theorem shape_codes_width_independent ls : all_nonneg ls -> zsum ls < 2 ^ 31 -> shape_codes_w wrap32 ls = shape_codes ls.
+Proof.
+  intros Hnn Hs. unfold shape_codes_w, shape_codes.
+  assert (Hm : map wrap32 ls = ls).
+  { rewrite <- (map_id ls) at 2. apply map_ext_in. intros x Hx. apply wrap32_id.
+    assert (0 <= x) by (unfold all_nonneg in Hnn; rewrite Forall_forall in Hnn; now apply Hnn).
+    assert (x <= zsum ls).
+    { clear -Hx Hnn. induction Hnn as [|y l Hy Hl IH]; [destruct Hx|]. cbn [zsum]. pose proof (zsum_nonneg l Hl). destruct Hx as [->|Hx]; [lia|]. specialize (IH Hx). lia. }
+    unfold in32. lia. }
+  rewrite Hm. unfold cumsum. rewrite (cumsum_w_id ls 0 Hnn) by (unfold in32; lia). reflexivity.
+Qed.
+
+(* every number ends / size / ravel_multi_index add is inside int32, so the wrapped addition is the addition *)
+Theorem geometry_additions_width_independent ls : all_nonneg ls -> zsum ls < 2 ^ 31 ->
+  Forall (fun sl => add_w wrap32 (fst sl) (snd sl) = fst sl + snd sl) (combine (excl_prefix ls) ls) /\
+  (forall i j, 0 <= j -> In (i, j) (combine (excl_prefix ls) ls) -> forall c, 0 <= c < j -> add_w wrap32 i c = i + c).
+Proof.
+  intros Hnn Hs.
+  assert (B : forall acc l, all_nonneg l -> 0 <= acc -> Forall (fun sl => 0 <= fst sl /\ 0 <= snd sl /\ fst sl + snd sl <= acc + zsum l) (combine (excl_from acc l) l)).
+  { intros acc l; revert acc; induction l as [|x l IH]; intros acc Hl Ha; [constructor|]. inversion Hl as [|? ? Hx Hl']; subst.
+    pose proof (zsum_nonneg l Hl'). cbn [excl_from combine zsum]. constructor; [cbn; lia|].
+    eapply Forall_impl; [|apply (IH (acc + x) Hl')]; [|lia]. cbn. intros [a b]; cbn. lia. }
+  specialize (B 0 ls Hnn ltac:(lia)). fold (excl_prefix ls) in B. split.
+  - eapply Forall_impl; [|exact B]. intros [s l] (H1 & H2 & H3). cbn [fst snd] in *. unfold add_w. apply wrap32_id. unfold in32. lia.
+  - intros i j Hj Hin c Hc. rewrite Forall_forall in B. destruct (B _ Hin) as (H1 & H2 & H3). cbn [fst snd] in *.
+    unfold add_w. apply wrap32_id. unfold in32. lia.
+Qed.
